@@ -417,6 +417,7 @@ def run(tier: str, seed: int, replay=None) -> int:
         out["hist"] = _hist_scenarios(R, quick, seed, rng_h)
         R.design("CostDepsHistMC", "CostDepsHistMC_inplace", expect_ok=False, workers=2)        # eval sample written in place
         R.design("CostDepsHistMC", "CostDepsHistMC_dropsfrozen", expect_ok=False, workers=2)    # frozen dilation mask dropped
+        R.design("CostDepsHistMC", "CostDepsHistMC_effmatch", expect_ok=False, workers=2)       # functions matched on effective sizes
     rng_h = random.Random(seed * 7 + 3)
     from concurrent.futures import ThreadPoolExecutor
     with ThreadPoolExecutor(max_workers=4) as ex:
